@@ -87,14 +87,17 @@ def positions(out):
     pre = "model LPair:\n    x: int\n    y: int\n\n\ndef lident(v: int) -> int:\n    return v\n\n\n"
     units = []
     for pk, body in POSITIONS.items():
-        for on, op in (("fd", "//"), ("md", "%")):
+        for on, op in (("fd", "//"), ("md", "%"), ("dv", "/")):
             name = f"lp_{pk}_{on}"
+            rt = "float" if op == "/" else "int"
+            if op == "/" and pk in ("loop_var", "match_binding"):
+                continue  # these bodies initialise / fall back with an int literal
             if pk == "closure_literal_divisor":
-                decl = f"def {name}(a: int, b: int) -> int:\n    f = (x) => x {op} 3\n    g = (x) => x {op} -3\n    return f(a) * 100 + g(a)"
+                decl = f"def {name}(a: int, b: int) -> {rt}:\n    f = (x) => x {op} 3\n    g = (x) => x {op} -3\n    return f(a) * 100 + g(a)"
             elif pk == "compound_in_closure":
                 continue
             else:
-                decl = f"def {name}(a: int, b: int) -> int:\n" + body.replace("{OP}", op)
+                decl = f"def {name}(a: int, b: int) -> {rt}:\n" + body.replace("{OP}", op)
             drv = "\n".join(f"println({name}({a}, {b}))" for a in INTS for b in INTS if b != 0)
             units.append(sem.Unit(name, (pre if pk in ("model_fields", "call_results") else "") + decl, drv, tags=("c04lang", pk, on)))
     # declarations shared by several units must not be duplicated in one pack: build each unit as its own program
